@@ -744,6 +744,81 @@ impl World {
         }
     }
 
+    /// Swap arrays of pool `p` in direction `a_to_b` (helper for two-hop).
+    #[allow(clippy::too_many_arguments)]
+    pub fn two_hop_ix(&mut self, p1: usize, p2: usize, u: usize, amount: u64, threshold: u64, exact_in: bool, a_to_b_one: bool, a_to_b_two: bool, limit_one: u128, limit_two: u128, v2: bool) -> Ix {
+        let (q1, q2) = (self.pools[p1].clone(), self.pools[p2].clone());
+        let (t1, t2) = (self.swap_arrays(p1, a_to_b_one), self.swap_arrays(p2, a_to_b_two));
+        let auth = self.users[u].key;
+        let all_spl = self.pool_is_spl(p1) && self.pool_is_spl(p2);
+        if v2 || !all_spl {
+            let (m_in, m_mid1) = if a_to_b_one { (q1.mint_a, q1.mint_b) } else { (q1.mint_b, q1.mint_a) };
+            let (m_mid2, m_out) = if a_to_b_two { (q2.mint_a, q2.mint_b) } else { (q2.mint_b, q2.mint_a) };
+            let _ = m_mid2;
+            let prog = |w: &World, m: &Pubkey| w.bank.get(m).map(|a| a.owner).unwrap_or(TOKEN);
+            let (v1_in, v1_mid) = if a_to_b_one { (q1.vault_a, q1.vault_b) } else { (q1.vault_b, q1.vault_a) };
+            let (v2_mid, v2_out) = if a_to_b_two { (q2.vault_a, q2.vault_b) } else { (q2.vault_b, q2.vault_a) };
+            b::TwoHopSwapV2 {
+                whirlpool_one: q1.key,
+                whirlpool_two: q2.key,
+                token_mint_input: m_in,
+                token_mint_intermediate: m_mid1,
+                token_mint_output: m_out,
+                token_program_input: prog(self, &m_in),
+                token_program_intermediate: prog(self, &m_mid1),
+                token_program_output: prog(self, &m_out),
+                token_owner_account_input: self.user_token(u, m_in),
+                token_vault_one_input: v1_in,
+                token_vault_one_intermediate: v1_mid,
+                token_vault_two_intermediate: v2_mid,
+                token_vault_two_output: v2_out,
+                token_owner_account_output: self.user_token(u, m_out),
+                token_authority: auth,
+                tick_array_one_0: t1[0],
+                tick_array_one_1: t1[1],
+                tick_array_one_2: t1[2],
+                tick_array_two_0: t2[0],
+                tick_array_two_1: t2[1],
+                tick_array_two_2: t2[2],
+                oracle_one: q1.oracle,
+                oracle_two: q2.oracle,
+                memo_program: MEMO,
+            }
+            .ix(amount, threshold, exact_in, a_to_b_one, a_to_b_two, limit_one, limit_two, None)
+        } else {
+            let mut ix = b::TwoHopSwap {
+                token_program: TOKEN,
+                token_authority: auth,
+                whirlpool_one: q1.key,
+                whirlpool_two: q2.key,
+                token_owner_account_one_a: self.user_token(u, q1.mint_a),
+                token_vault_one_a: q1.vault_a,
+                token_owner_account_one_b: self.user_token(u, q1.mint_b),
+                token_vault_one_b: q1.vault_b,
+                token_owner_account_two_a: self.user_token(u, q2.mint_a),
+                token_vault_two_a: q2.vault_a,
+                token_owner_account_two_b: self.user_token(u, q2.mint_b),
+                token_vault_two_b: q2.vault_b,
+                tick_array_one_0: t1[0],
+                tick_array_one_1: t1[1],
+                tick_array_one_2: t1[2],
+                tick_array_two_0: t2[0],
+                tick_array_two_1: t2[1],
+                tick_array_two_2: t2[2],
+                oracle_one: q1.oracle,
+                oracle_two: q2.oracle,
+            }
+            .ix(amount, threshold, exact_in, a_to_b_one, a_to_b_two, limit_one, limit_two);
+            if q1.adaptive {
+                ix = b::make_writable(ix, "oracle_one");
+            }
+            if q2.adaptive {
+                ix = b::make_writable(ix, "oracle_two");
+            }
+            ix
+        }
+    }
+
     pub fn update_fees_ix(&self, i: usize) -> Ix {
         let pi = &self.positions[i];
         let (tl, tu) = self.pos_arrays(pi);
@@ -898,6 +973,18 @@ impl World {
         }
         m
     }
+}
+
+/// Accounts named by `ix` that differ between two banks (accounts created lazily by the harness
+/// for later instructions do not count as an outcome of this one).
+pub fn diff_on(ix: &Ix, a: &Bank, b: &Bank) -> Vec<Pubkey> {
+    let mut v = vec![];
+    for m in &ix.metas {
+        if a.get(&m.key) != b.get(&m.key) && !v.contains(&m.key) {
+            v.push(m.key);
+        }
+    }
+    v
 }
 
 pub fn meta_w(name: &'static str, key: Pubkey) -> ix::Meta {
